@@ -35,7 +35,7 @@ CLAIMS = {
    text='Decides branch structure and ordering: construction helper returns only supported versions or raises; single-version arm = handshake(playing)+login start from token profile or username, no status request; other arm = handshake(status)+request; status evaluation order (empty -> raise, missing -> default path, not allowed -> mismatch, else narrow+reconnect); EOF-only fallback; plain status calls the handler once, pings only on request, always disconnects.',
    note='Latency sign, JSON contents and server integers are run-time values: not decided.', ref='3/C09'),
  'C10': dict(cat='other', tech='per-arm dataflow/dominance obligations on LoginReactor.react',
-   text='Decides per arm, on all paths: one secret flows to RSA encryption, hash and cipher; response fields get encrypted secret/token in the right slots; forced write dominates both wrapper installations; both socket and file object wrapped from one cipher; compression arm sets threshold and flag; plugin arm writes exactly one unsuccessful response with the request id; success installs the play reactor; disconnect arm always raises and only the chat object's text member or the raw data reach the string consumers; the secret is generated afresh on every path and kept only in a local; the transport (file object) is re-read from the connection for every packet so the cipher applies to the very next frame.',
+   text='Decides per arm, on all paths: one secret flows to RSA encryption, hash and cipher; response fields get encrypted secret/token in the right slots; forced write dominates both wrapper installations; both socket and file object wrapped from one cipher; compression arm sets threshold and flag; plugin arm writes exactly one unsuccessful response with the request id; success installs the play reactor; disconnect arm always raises and only the chat object text member or the raw data reach the string consumers; the secret is generated afresh on every path and kept only in a local; the transport (file object) is re-read from the connection for every packet so the cipher applies to the very next frame.',
    note='Stateless dispatch makes every-order reduce to per-arm obligations; crypto numerics in C18.', ref='3/C10'),
  'C11': dict(cat='other', tech='per-arm obligations on PlayingReactor.react + three-way version-predicate agreement by folding',
    text='Decides: keep-alive arm queues exactly one reply carrying the incoming id, same codec both ways in every version; position arm sets spawned on all paths, its version test agrees with the presence of teleport_id and the registration of TeleportConfirm in every version, each sub-arm writes one fully populated packet; unknown ids never touch the stream; disconnect arm disconnects; exit callback called at one guarded site; every packet read is handed to _react before the thread reads again or leaves the loop.',
@@ -65,7 +65,7 @@ CLAIMS = {
    text='Decides: authenticated is the conjunction of its four inputs (16 combinations), Profile truth is id and name present; each operation posts the documented endpoint and payload keys from the documented sources; every store to token fields is dominated by the raise-on-error call; _raise_from_response returns only on OK and every other path raises with status_code set; validate true only on 204; join guarded by authenticated.',
    note='Real HTTP encoding and requests behaviour are not decided.', ref='3/C19'),
  'C20': dict(cat='other', tech='effect/guard relations on tracker apply methods, alias closures and record/vector helpers',
-   text='Narrow claim: only AddPlayerAction inserts into the player table, updates use a non-raising lookup and store under a guard, removal is guarded; each position axis adds under its protocol flag bit and overwrites otherwise, angles wrap last; map patch indexes with packet width / map stride / offset x,z; alias getter/setter/deleter close over the same names; eq and hash enumerate the same slots, which are a pure function of the class's own MRO (no cache a subclass could inherit); vector operators preserve type and pair components.',
+   text='Narrow claim: only AddPlayerAction inserts into the player table, updates use a non-raising lookup and store under a guard, removal is guarded; each position axis adds under its protocol flag bit and overwrites otherwise, angles wrap last; map patch indexes with packet width / map stride / offset x,z; alias getter/setter/deleter close over the same names; eq and hash enumerate the same slots, which are a pure function of the own MRO of the class (no cache a subclass could inherit); vector operators preserve type and pair components.',
    note='Tracker state after a history, name_from_value round trips and numeric vector results are value-level: not applicable to static analysis.', ref='3/C20'),
 }
 
